@@ -31,14 +31,14 @@ Theorem C03_validator_sound : forall b cut fuel ds qs rs cells k,
   exists st : state term,
   forall env : var -> Z,
     let s := map (hm (eval env)) st in
-    let vals := den_prog (zalg env) ds in
+    let U := b_univ b in
     step (zalg env) (freeze b cut) s = s /\
     (forall q, In q qs ->
-       observe (zalg env) (freeze b cut) s (q_obs ds q) = nth (q_decl q) vals 0) /\
+       observe (zalg env) (freeze b cut) s (q_obs ds q) = nth (q_decl q) (den_prog (zalg env) U ds) 0) /\
     (forall c, In c cells ->
        let s' := step (zalg env) b s in
-       let en := den (zalg env) vals (g_when c) >? 0 in
-       zget env (nth (g_w c) s' []) (g_sig c) = (if en then den (zalg env) vals (g_data c) else 0) /\
+       let en := zden env U ds (g_when c) >? 0 in
+       zget env (nth (g_w c) s' []) (g_sig c) = (if en then zden env U ds (g_data c) else 0) /\
        zget env (nth (g_h c) s' []) (g_sig c)
          = (if en then 0 else wrap32 (wrap32 (env (g_vw c)) + wrap32 (env (g_vh c))))).
 Proof. exact check_cells_sound. Qed.
